@@ -4,6 +4,7 @@ __all__ = ['ncf2lateral_boundary']
 
 import numpy as np
 from PseudoNetCDF._getwriter import registerwriter
+from PseudoNetCDF.camxfiles.timetuple import rolldate
 
 _emiss_hdr_fmt = np.dtype(dict(names=['SPAD', 'name', 'note', 'itzon', 'nspec',
                                       'ibdate', 'btime', 'iedate', 'etime',
@@ -89,6 +90,8 @@ def ncf2lateral_boundary(ncffile, outpath):
     time_hdr['iedate'] = date
     time_hdr['etime'] = time + 1.
     time_hdr['iedate'] += (time_hdr['etime'] // 24).astype('i')
+    # the day after 31 Dec is day 1 of the next year
+    time_hdr['iedate'] = rolldate(time_hdr['iedate'])
     time_hdr['etime'] -= (time_hdr['etime'] // 24) * 24
     emiss_hdr['ibdate'] = time_hdr['ibdate'][0]
     emiss_hdr['btime'] = time_hdr['btime'][0]
